@@ -50,14 +50,26 @@ type Body struct {
 	Run  func(keep *[]Retained) string
 }
 
-var shared20 = func() gocvss20.CVSS20 { o, _ := gocvss20.ParseVector(full14); return *o }()
-var shared31 = func() gocvss31.CVSS31 {
-	o, _ := gocvss31.ParseVector("CVSS:3.1/AV:N/AC:L/PR:N/UI:R/S:C/C:H/I:L/A:N/E:F/MAV:A")
-	return *o
+// The shared objects are built with Set, not ParseVector: nothing parses before the first explored call of a
+// fresh process, so the cold-start phases really see the parsers cold.
+func setAll(set func(abv, value string) error, vector string) {
+	for _, kv := range strings.Split(vector, "/") {
+		if k, v, ok := strings.Cut(kv, ":"); ok && k != "CVSS" {
+			if err := set(k, v); err != nil {
+				panic("bodies: cannot build shared object: " + kv + ": " + err.Error())
+			}
+		}
+	}
+}
+
+var shared20 = func() (o gocvss20.CVSS20) { setAll(o.Set, full14); return }()
+var shared31 = func() (o gocvss31.CVSS31) {
+	setAll(o.Set, "CVSS:3.1/AV:N/AC:L/PR:N/UI:R/S:C/C:H/I:L/A:N/E:F/MAV:A")
+	return
 }()
-var shared40 = func() gocvss40.CVSS40 {
-	o, _ := gocvss40.ParseVector("CVSS:4.0/AV:N/AC:L/AT:N/PR:N/UI:N/VC:H/VI:L/VA:N/SC:N/SI:N/SA:N/E:P/MSI:S/U:Amber")
-	return *o
+var shared40 = func() (o gocvss40.CVSS40) {
+	setAll(o.Set, "CVSS:4.0/AV:N/AC:L/AT:N/PR:N/UI:N/VC:H/VI:L/VA:N/SC:N/SI:N/SA:N/E:P/MSI:S/U:Amber")
+	return
 }()
 
 var shared20Copy, shared31Copy, shared40Copy = shared20, shared31, shared40
@@ -169,15 +181,16 @@ func init() {
 		Body{"parse twice, edit the first result, read the second (all versions)", func(keep *[]Retained) string {
 			out := ""
 			{
-				a, _ := gocvss20.ParseVector(temp9)
-				b, _ := gocvss20.ParseVector(temp9)
+				const v = "AV:A/AC:H/Au:M/C:N/I:P/A:P/E:H/RL:U/RC:C" // parsed by no other body
+				a, _ := gocvss20.ParseVector(v)
+				b, _ := gocvss20.ParseVector(v)
 				a.Set("AV", "N")
 				a.Set("RC", "UC")
-				c, _ := gocvss20.ParseVector(temp9)
+				c, _ := gocvss20.ParseVector(v)
 				out += b.Vector() + " " + c.Vector() + " "
 			}
 			{
-				const v = "CVSS:3.0/AV:L/AC:H/PR:L/UI:R/S:C/C:N/I:H/A:L/RC:U/MS:U"
+				const v = "CVSS:3.0/AV:L/AC:H/PR:L/UI:R/S:C/C:L/I:H/A:L/RC:U/MS:U" // parsed by no other body
 				a, _ := gocvss30.ParseVector(v)
 				b, _ := gocvss30.ParseVector(v)
 				a.Set("AV", "P")
@@ -186,16 +199,18 @@ func init() {
 				out += b.Vector() + " " + c.Vector() + " "
 			}
 			{
-				const v = "CVSS:3.1/AV:N/AC:L/PR:N/UI:R/S:C/C:H/I:L/A:N/E:F/MAV:A"
+				const v = "CVSS:3.1/AV:N/AC:L/PR:N/UI:R/S:C/C:H/I:L/A:L/E:F/MAV:A" // parsed by no other body
 				a, _ := gocvss31.ParseVector(v)
 				b, _ := gocvss31.ParseVector(v)
 				a.Set("AV", "P")
 				a.Set("MAV", "P")
-				c, _ := gocvss31.ParseVector("CVSS:3.1/MAV:A/E:F/A:N/I:L/C:H/S:C/UI:R/PR:N/AC:L/AV:N")
+				c, _ := gocvss31.ParseVector(v)
+				d, _ := gocvss31.ParseVector("CVSS:3.1/MAV:A/E:F/A:L/I:L/C:H/S:C/UI:R/PR:N/AC:L/AV:N")
+				out += d.Vector() + " "
 				out += b.Vector() + " " + c.Vector() + " "
 			}
 			{
-				const v = "CVSS:4.0/AV:N/AC:L/AT:N/PR:N/UI:N/VC:H/VI:L/VA:N/SC:N/SI:N/SA:N/E:P/MSI:S/U:Amber"
+				const v = "CVSS:4.0/AV:N/AC:L/AT:N/PR:N/UI:N/VC:H/VI:L/VA:L/SC:N/SI:N/SA:N/E:P/MSI:S/U:Amber" // parsed by no other body
 				a, _ := gocvss40.ParseVector(v)
 				b, _ := gocvss40.ParseVector(v)
 				a.Set("AV", "P")
